@@ -25,10 +25,10 @@ ASSUMPTIONS = [
     "clock values stay inside every chain's span (outside it a chain has no lead by definition, C11)",
     "last-trading instants of built-in futures are taken from the library (their correctness is C19)",
 ]
-COMPONENTS = {"real": ["Exchange", "LimitOrderBook", "EventNBBO", "EventContractDiscontinued", "IEvent.notify dispatch", "contracts", "FutureChain"],
+COMPONENTS = {"real": ["Exchange", "LimitOrderBook", "EventNBBO", "EventContractDiscontinued", "IEvent.notify dispatch", "TradingEnv.notify (one third of the runs)", "contracts", "FutureChain"],
               "harness": ["dict book model", "calendar-free lead model"], "stub": []}
 PROBE_FLOORS = {"revival_attempt": 200, "chain_key_after_roll": 100, "string_key_query": 200, "quote_other_key_between": 500,
-                "query_dead_book": 200}
+                "query_dead_book": 200, "chain_quote_dispatched_by_environment": 700}
 
 
 def generate(rng, i):
@@ -63,12 +63,16 @@ def generate(rng, i):
     t = core.parse_t("2019-01-02T00:00:00")
     script = []
     length = rng.randint(3, 30) if rng.random() < 0.9 else rng.randint(31, 150)
-    via_notify = rng.random() < 0.5
+    mode = rng.choice(["direct", "notify", "env"])
+    via_notify = mode != "direct"
+    t_cap = core.parse_t("2020-06-01T00:00:00")
     last = {}
     for _ in range(length):
         r = rng.random()
         k = rng.randrange(n)
-        t = t + timedelta(seconds=rng.choice([0, 1, 60, 86400, 7 * 86400]))
+        dt = timedelta(seconds=rng.choice([0, 1, 60, 86400, 7 * 86400] + ([30 * 86400] if mode == "env" else [])))
+        if t + dt <= t_cap:
+            t = t + dt
         if r < 0.45:
             mid = rng.choice([1.0, 10.0, 100.0, 2500.0]) * (1 + rng.uniform(-0.2, 0.2))
             sp = rng.choice([0, 0, 0.001, 0.02])
@@ -91,7 +95,7 @@ def generate(rng, i):
             keys = [rng.randrange(n) for _ in range(rng.randint(1, 4))]
             script.append({"op": "query", "keys": keys, "signs": [rng.choice([1, -1, 0, 2.5, -0.5]) for _ in keys],
                            "by_string": rng.random() < 0.3})
-    return {"kind": "c14", "contracts": specs, "script": script, "via_notify": via_notify, "clock0": "2019-01-02T00:00:00"}
+    return {"kind": "c14", "contracts": specs, "script": script, "via_notify": via_notify, "mode": mode, "clock0": "2019-01-02T00:00:00"}
 
 
 class Model(object):
@@ -140,7 +144,23 @@ def _execute(sc, clock0):
     stats = {"ops": 0, "quotes": 0, "queries": 0}
     specs = sc["contracts"]
     contracts = [world.build_contract(s) for s in specs]
-    ex = Exchange()
+    mode = sc.get("mode") or ("notify" if sc.get("via_notify") else "direct")
+    env = None
+    if mode == "env":
+        # events are dispatched by a real environment (TradingEnv.notify): its clock follows the
+        # events, so a chain-keyed quote is filed under the lead contract at the quote's own time
+        from tradingenv.env import TradingEnv
+        from tradingenv.transmitter import Transmitter
+        from tradingenv.spaces import BoxPortfolio
+        from tradingenv.contracts import ETF
+        dummy = ETF("ZZDUMMY")
+        tr = Transmitter(timesteps=[clock0, clock0 + timedelta(days=1000)])
+        tr.add_events([EventNBBO(clock0, dummy, 1.0, 1.0), EventNBBO(clock0 + timedelta(days=1000), dummy, 1.0, 1.0)])
+        env = TradingEnv(action_space=BoxPortfolio([dummy]), transmitter=tr)
+        env.reset()
+        ex = env.exchange
+    else:
+        ex = Exchange()
     M = Model(specs, contracts)
     now = clock0
     last_quoted = None
@@ -185,9 +205,15 @@ def _execute(sc, clock0):
         if name == "quote":
             t = core.parse_t(op["t"])
             c = contracts[op["k"]]
+            if env is not None:
+                now = t
             sym, lead = M.resolve(op["k"], now)
             ev = EventNBBO(t, c, op["bid"], op["ask"])
-            if sc["via_notify"]:
+            if env is not None:
+                env.notify(ev)
+                if lead is not None:
+                    probe("chain_quote_dispatched_by_environment")
+            elif sc["via_notify"]:
                 ev.notify([ex])
             else:
                 ex.process_EventNBBO(ev)
@@ -207,9 +233,13 @@ def _execute(sc, clock0):
             trace.append("q{}{}{}".format(specs[op["k"]]["kind"][0], "a" if mb["alive"] else "d", lead if lead is not None else ""))
         elif name == "disc":
             t = core.parse_t(op["t"])
+            if env is not None:
+                now = t
             sym, lead = M.resolve(op["k"], now)
             ev = EventContractDiscontinued(t, contracts[op["k"]])
-            if sc["via_notify"]:
+            if env is not None:
+                env.notify(ev)
+            elif sc["via_notify"]:
                 ev.notify([ex])
             else:
                 ex.process_EventContractDiscontinued(ev)
@@ -262,7 +292,7 @@ def _execute(sc, clock0):
 
 
 def describe(scenario):
-    return {"contracts": scenario["contracts"], "via_notify": scenario["via_notify"], "script_len": len(scenario["script"]),
+    return {"contracts": scenario["contracts"], "via_notify": scenario["via_notify"], "mode": scenario.get("mode"), "script_len": len(scenario["script"]),
             "script_head": scenario["script"][:25]}
 
 
